@@ -36,8 +36,9 @@ CONSTANTS IsaName,        \* "6800" | "87C00" | "4004": ISA table and DASL targe
           OrgMode,        \* "all": every load address at which the image is legal; "min": only the lowest such address
           Pres,           \* numbers of NOPs in front of X
           AllTerms,       \* TRUE: every return form / jump as end of the target routine; FALSE: the first return + a jump
-          AllVals         \* TRUE: every value of a 4-bit operand of X; FALSE: its lowest and highest value (fields of at
-                          \* most 3 bits - the 87C00 conditions - always get every value)
+          AllVals         \* TRUE: every value of a 4-bit operand of X in every context; FALSE: its lowest and highest value
+                          \* in every context, the inner values in one context (fields of at most 3 bits - the 87C00
+                          \* conditions - always get every value in every context)
 
 I4 == INSTANCE Isa4004
 I8 == INSTANCE Isa6800
@@ -60,21 +61,28 @@ Nop == CHOOSE f \in G : f.id = (IF IsaName = "6800" THEN "NOP inh" ELSE "NOP")
 
 CanonIdx(fld) == {i \in 1..Len(fld.names) : EnumIndex(fld, fld.names[i][2]) = i}
 Rep(fld) == IF fld.k = "enum" THEN 1 ELSE IF fld.lo <= 18 /\ 18 <= fld.hi THEN 18 ELSE fld.hi
-\* values of a non-target operand of X: every register / condition, every value of a field of at most 4 bits
+\* values of a non-target operand of X: every register / condition, every value of a field of at most 4 bits;
+\* "ends": fields of 4 bits only with their lowest and highest value
 Ends(S) == {v \in S : (\A w \in S : v <= w) \/ (\A w \in S : v >= w)}
-Vals(fld) == LET S == IF fld.k = "enum" THEN CanonIdx(fld) ELSE IF fld.w <= 4 THEN fld.lo..fld.hi ELSE {Rep(fld)}
-             IN IF AllVals \/ fld.w <= 3 THEN S ELSE Ends(S)
+Vals(fld, mode) ==
+  IF mode = "rep" THEN {Rep(fld)}
+  ELSE LET S == IF fld.k = "enum" THEN CanonIdx(fld) ELSE IF fld.w <= 4 THEN fld.lo..fld.hi ELSE {Rep(fld)}
+       IN IF mode = "all" \/ fld.w <= 3 THEN S ELSE Ends(S)
 
 RECURSIVE OpsSets(_, _, _)
-OpsSets(f, i, all) ==                       \* operand tuples of form f, fields i..n; 0 stands for the target operand
+OpsSets(f, i, mode) ==                      \* operand tuples of form f, fields i..n; 0 stands for the target operand
   IF i > Len(f.flds) THEN {<<>>}
-  ELSE LET heads == IF i = f.tf THEN {0} ELSE IF all THEN Vals(f.flds[i]) ELSE {Rep(f.flds[i])}
-       IN {<<h>> \o t : h \in heads, t \in OpsSets(f, i + 1, all)}
+  ELSE LET heads == IF i = f.tf THEN {0} ELSE Vals(f.flds[i], mode)
+       IN {<<h>> \o t : h \in heads, t \in OpsSets(f, i + 1, mode)}
 \* an item: a form, its operands, and what its target operand points at: "T" | "E" | "self" | "-" (no target)
 Item(f, ops, to) == [f |-> f, ops |-> ops, to |-> to]
-RepItem(f, to) == Item(f, CHOOSE o \in OpsSets(f, 1, FALSE) : TRUE, to)
+RepItem(f, to) == Item(f, CHOOSE o \in OpsSets(f, 1, "rep") : TRUE, to)
 NopItem == RepItem(Nop, "-")
-XItems == UNION {{Item(f, o, "T") : o \in OpsSets(f, 1, TRUE)} : f \in TargetForms}
+XItems == UNION {{Item(f, o, "T") : o \in OpsSets(f, 1, "all")} : f \in TargetForms}
+\* the variants that are combined with EVERY closer and end of the target routine; the others (AllVals = FALSE: the inner
+\* values of 4-bit operands - 4004 ISZ registers 1..14, JCN masks 1..14) get one context: closed by the first jump form
+\* back to E, target routine ended by the first return form
+XMain == IF AllVals THEN XItems ELSE UNION {{Item(f, o, "T") : o \in OpsSets(f, 1, "ends")} : f \in TargetForms}
 Closers(x) == IF x.f.flow = "jump" THEN {<<>>}
               ELSE {<<RepItem(f, to)>> : f \in JumpForms, to \in {"E", "self"}}
                    \cup {<<RepItem(f, "-")>> : f \in RetForms \cup StopForms}
@@ -84,7 +92,9 @@ TermItems == IF AllTerms THEN {RepItem(f, "-") : f \in RetForms} \cup {RepItem(f
              ELSE {RepItem(FirstRet, "-"), RepItem(FirstJump, "E")}
 Poss == {"behind", "before"}
 Progs == UNION {{[x |-> x, pre |-> pre, pos |-> pos, cl |-> c, tm |-> t] :
-                   pre \in Pres, pos \in Poss, c \in Closers(x), t \in TermItems} : x \in XItems}
+                   pre \in Pres, pos \in Poss, c \in Closers(x), t \in TermItems} : x \in XMain}
+         \cup {[x |-> x, pre |-> pre, pos |-> pos, cl |-> IF x.f.flow = "jump" THEN <<>> ELSE <<RepItem(FirstJump, "E")>>,
+                 tm |-> RepItem(FirstRet, "-")] : x \in XItems \ XMain, pre \in Pres, pos \in Poss}
 
 \* ------------------------------------------------------------------------------------------ layout of program p at o
 ESeq(p) == [i \in 1..p.pre |-> NopItem] \o <<p.x>> \o p.cl
@@ -103,7 +113,10 @@ Resolved(p, o, i) ==
   LET it == ItemSeq(p)[i]
       t == CASE it.to = "T" -> TAddr(p, o) [] it.to = "E" -> EAddr(p, o) [] OTHER -> AddrOf(ItemSeq(p), o, i)
   IN [k \in 1..Len(it.ops) |-> IF k = it.f.tf THEN t ELSE it.ops[k]]
+\* where the table of the target allows a form to stand (87C00: CallpInPageFF)
+PlaceOK(f, pc) == IF IsaName = "87C00" THEN I7!PlaceOK(f, pc) ELSE TRUE
 WF(p, o) == /\ EndAddr(p, o) - 1 <= AddrMax
+            /\ \A i \in 1..Len(ItemSeq(p)) : PlaceOK(ItemSeq(p)[i].f, AddrOf(ItemSeq(p), o, i))
             /\ \A i \in 1..Len(ItemSeq(p)) : AllLegal(ItemSeq(p)[i].f, Resolved(p, o, i), AddrOf(ItemSeq(p), o, i), AddrMax)
 RECURSIVE Concat(_, _, _)
 Concat(p, o, i) == IF i > Len(ItemSeq(p)) THEN <<>>
@@ -158,7 +171,7 @@ Out ==
    targets |-> {<<a, DecodeAt(Img, a).tgt>> : a \in {s \in S : DecodeAt(Img, s).tgt >= 0}},
    stopends |-> {a + DecodeAt(Img, a).len : a \in {s \in S : DecodeAt(Img, s).flow = "stop"}},
    \* the dimension: the form under test, its operands, where it stands, the routine only it leads to
-   sole |-> [form |-> prog.x.f.id, flow |-> prog.x.f.flow, ops |-> Resolved(prog, org, XIdx(prog)),
+   sole |-> [variant |-> <<prog.x.f.id, prog.x.ops>>, form |-> prog.x.f.id, flow |-> prog.x.f.flow, ops |-> Resolved(prog, org, XIdx(prog)),
              at |-> XAddr(prog, org), target |-> TAddr(prog, org), tbytes |-> TBytes(prog, org),
              pos |-> prog.pos, pre |-> prog.pre, closer |-> ClName, term |-> prog.tm.f.id]]
 Dump == PrintT(<<"OUT", ToJson(Out)>>)
